@@ -7,8 +7,23 @@ use crate::vocab::vocab;
 use proptest::prelude::*;
 use serde::{Deserialize, Serialize};
 
-/// operator words per language, read from the language's alias table (alias -> "[OPERATOR:x]")
+/// operator words per language. For the two shipped languages the table is the one the property states
+/// (independent of the configuration under test: a word mapped to the wrong operator must not be believed);
+/// for any further language it is read from that language's alias table (alias -> "[OPERATOR:x]").
 pub fn op_words(lang: &str, op: char) -> Vec<String> {
+    let fixed: Option<&[&str]> = match (lang, op) {
+        ("en", '*') => Some(&["times", "multiply"]),
+        ("en", '+') => Some(&["add", "sum", "append"]),
+        ("en", '-') => Some(&["minus", "exclude"]),
+        ("tr", '*') => Some(&["çarpı", "carpi", "kere", "çarp", "carp"]),
+        ("tr", '+') => Some(&["ekle", "topla", "toplam"]),
+        ("tr", '-') => Some(&["eksi", "çıkar", "cikar", "çıkart", "cikart"]),
+        ("en", _) | ("tr", _) => Some(&[]),
+        _ => None,
+    };
+    if let Some(f) = fixed {
+        return f.iter().map(|s| s.to_string()).collect();
+    }
     let target = format!("[OPERATOR:{}]", op);
     vocab().langs.get(lang).map(|l| l.alias.iter().filter(|(_, t)| **t == target).map(|(a, _)| a.clone()).collect()).unwrap_or_default()
 }
